@@ -75,7 +75,7 @@ for _m in (gc, gu):
 
 DRIVERS = ("c04",)
 MODEL_TARGETS = ["Model/Cnf.vo", "Model/Color.vo"]
-TARGETS = ["Proofs/CnfFacts.vo"]
+TARGETS = ["Proofs/CnfFacts.vo", "Proofs/ColorFacts.vo", "Proofs/ColorCount.vo"]
 LEVEL = "proof"
 TRUST = [
     "SAT solver (glucose3 through pysat.solvers.Solver): Section variables solve/get_model/enum_models of Proofs/ColorFacts.v with the contract "
@@ -218,13 +218,23 @@ def solver_contract_bad(log):
     handed in, is the list [±1..±N] with N the largest variable mentioned, and enumeration has no repeats"""
     cls = log["clauses"]
     N = max((abs(x) for c in cls for x in c), default=0)
-    for m in log["models"] + log["enum"]:
-        if [abs(x) for x in m] != list(range(1, N + 1)):
+    ms = log["models"] + log["enum"]
+    if not ms:
+        return None
+    for m in ms:
+        if len(m) != N:
             return f"model {m[:8]}.. is not a total assignment over 1..{N}"
-        s = set(m)
-        for c in cls:
-            if not any(x in s for x in c):
-                return f"model violates clause {c}"
+    if N == 0:
+        return "empty clause satisfied" if any(len(c) == 0 for c in cls) else None
+    M = np.array(ms, dtype=np.int64)
+    if not np.all(np.abs(M) == np.arange(1, N + 1)):
+        return f"a model is not of the form [±1..±{N}]"
+    for c in cls:
+        if not c:
+            return "a model was returned although an empty clause was added"
+        ca = np.array(c, dtype=np.int64)
+        if not np.all((M[:, np.abs(ca) - 1] == ca).any(axis=1)):
+            return f"a returned model violates clause {c}"
     if len({tuple(m) for m in log["enum"]}) != len(log["enum"]):
         return "enum_models repeated a model"
     return None
@@ -375,7 +385,8 @@ def oracle_line(f, nv, edges, op, cw):
     else:
         n, k, est = 2, E, 2 ** E
     flags = 1 if E <= 400 else 0
-    flags |= 16 if est <= 10 ** 7 or E <= 45 else 0
+    if est <= 10 ** 6 or (f != "dm" and k <= 24):
+        flags |= 16       # existence by backtracking with early exit (exponential when there is none)
     if est <= CAP_COUNT:
         flags |= 2
     if est <= 6000:
